@@ -11,7 +11,9 @@ import (
 	"bytes"
 	"encoding/json"
 	"fmt"
+	"errors"
 	"math"
+	"regexp"
 	"strings"
 	"time"
 
@@ -63,6 +65,15 @@ type Scenario struct {
 	// Reuse: one igc.Encoder value writes the whole track and then every
 	// prefix track, each into its own output (clean mode).
 	Reuse bool `json:"reuse,omitempty"`
+	// Prelude (clean mode): a hand-composed record stream (I records that
+	// extend the B record, odd headers, garbage) decoded before the track is,
+	// in the same process: a decode starts from nothing whatever came before.
+	Prelude []string `json:"prelude,omitempty"`
+	// CleanWriteFail >= 0 (clean mode): the encoder's writer fails at that
+	// offset once (transient) or for good; if Encode nevertheless reports
+	// success, what the writer accepted must be the whole track.
+	CleanWriteFail int  `json:"clean_write_fail,omitempty"`
+	CleanWFSticky  bool `json:"clean_wf_sticky,omitempty"`
 }
 
 // switchWriter lets one Encoder write successive tracks into separate outputs.
@@ -112,7 +123,7 @@ func (prop) Describe() core.Description {
 		RealComponents: []string{"encoding/igc (Encoder.Encode, Read and its parser)", "go-geom LineString", "stdlib bufio.Scanner, fmt, regexp, time"},
 		StubComponents: []string{"io.Writer under the encoder (simio.Writer)", "the medium between writer and reader (line and byte edits)", "io.Reader under the decoder (simio.Reader: chunking, stalls incl. unbounded, data+EOF, error at offset, truncation)"},
 		FaultKinds:     []string{"read-split", "read-stall", "read-data+eof", "read-error", "read-truncate", "stall-forever", "line-drop", "line-dup", "line-swap", "line-tear", "line-long", "byte-edit", "write-fail"},
-		Probes:         []string{"probe:year<2000", "probe:year-rollover", "probe:day-rollover", "probe:lat==+-90", "probe:lon==+-180", "probe:alt-clamped", "probe:fractional-second", "probe:I-record", "probe:I-record-extends-B", "probe:B-shorter-than-announced", "probe:line>64KiB", "probe:torn-inside-B", "probe:noise-before-A", "probe:record-errors-returned", "probe:prefix-tracks", "probe:encoder-reused", "probe:local-zone-not-utc", "probe:extra-ordinates-nonzero", "probe:first-result-rechecked-after-later-decodes"},
+		Probes:         []string{"probe:year<2000", "probe:year-rollover", "probe:day-rollover", "probe:lat==+-90", "probe:lon==+-180", "probe:alt-clamped", "probe:fractional-second", "probe:I-record", "probe:I-record-extends-B", "probe:B-shorter-than-announced", "probe:line>64KiB", "probe:torn-inside-B", "probe:noise-before-A", "probe:record-errors-returned", "probe:prefix-tracks", "probe:encoder-reused", "probe:local-zone-not-utc", "probe:extra-ordinates-nonzero", "probe:first-result-rechecked-after-later-decodes", "probe:headers-checked", "probe:decode-after-an-unrelated-stream", "probe:encode-reported-success-although-the-writer-failed"},
 	}
 }
 
@@ -146,12 +157,18 @@ func (prop) Decode(raw []byte) (any, error) {
 	if s.TZ < -14*3600 || s.TZ > 14*3600 {
 		return nil, fmt.Errorf("bad time zone")
 	}
-	if s.Reuse && s.Mode != "clean" {
-		return nil, fmt.Errorf("reuse outside clean mode")
+	if (s.Reuse || len(s.Prelude) > 0 || s.CleanWriteFail != 0) && s.Mode != "clean" {
+		return nil, fmt.Errorf("clean-mode settings outside clean mode")
+	}
+	if s.CleanWriteFail < 0 {
+		return nil, fmt.Errorf("bad write failure offset")
 	}
 	if s.Mode == "clean" {
 		if len(s.Lines) > 0 || len(s.LineEdits) > 0 || len(s.Edits) > 0 || s.WriteFail >= 0 {
 			return nil, fmt.Errorf("faults in clean mode")
+		}
+		if len(s.Prelude) > 40 {
+			return nil, fmt.Errorf("prelude too long")
 		}
 		if s.Read.ErrAt >= 0 || s.Read.TruncAt >= 0 || s.Read.StallForever {
 			return nil, fmt.Errorf("reader faults in clean mode")
@@ -280,6 +297,9 @@ func genTrack(r *prng.Rand) []Fix {
 func genA(r *prng.Rand) string {
 	const cs = "ABCDEFGHIJKLMNOPQRSTUVWXYZ0123456789"
 	n := r.Range(3, 10)
+	if r.Chance(0.15) {
+		n = r.Range(1, 2) // the A record text is the caller's: also a very short one
+	}
 	b := make([]byte, n)
 	for i := range b {
 		b[i] = cs[r.Intn(len(cs))]
@@ -450,6 +470,13 @@ func (prop) Generate(r *prng.Rand, phase string) any {
 	}
 	if phase == "clean" {
 		s.Reuse = r.Chance(0.4)
+		if r.Chance(0.3) {
+			s.Prelude = genLines(r)
+		}
+		if r.Chance(0.15) {
+			s.CleanWriteFail = 1 + r.Intn(40*len(s.Fixes)+40)
+			s.CleanWFSticky = r.Chance(0.5)
+		}
 		return s
 	}
 	if len(s.Fixes) > 30 {
@@ -583,6 +610,16 @@ func checkTrack(res *core.Result, log *core.Log, s *Scenario, ses *session, fixe
 		return false
 	}
 	if err != nil {
+		var list igc.Errors
+		if !errors.As(err, &list) || len(list) == 0 {
+			res.Fail("errors-not-a-list", "errors-not-a-list", "Read (%s) returned the error %T %q, not the list of record errors (igc.Errors)", what, err, oneLine(err.Error()))
+			return false
+		}
+	}
+	if !checkHeaders(res, t, w.Buf, what) {
+		return false
+	}
+	if err != nil {
 		sig := "clean-pipe-record-errors"
 		msg := err.Error()
 		switch {
@@ -600,6 +637,77 @@ func checkTrack(res *core.Result, log *core.Log, s *Scenario, ses *session, fixe
 		}
 	}
 	return verifyTrack(res, fixes, t.LineString, what, w.Buf)
+}
+
+var dteLine = regexp.MustCompile(`^HFDTE(\d{6})$`)
+
+// checkHeaders: for a stream whose H records are all of the plain form
+// HFDTEddmmyy (what the encoder writes today), the returned headers are those
+// records in order: source F, key DTE, no long name, value ddmmyy. Any other
+// H record in the stream switches the check off (the long forms are the
+// decoder's business, not stated here).
+func checkHeaders(res *core.Result, t *igc.T, stream []byte, what string) bool {
+	var want []string
+	seenA := false
+	for _, ln := range strings.Split(string(stream), "\n") {
+		ln = strings.TrimSuffix(ln, "\r")
+		if !seenA {
+			seenA = strings.HasPrefix(ln, "A")
+			continue
+		}
+		if strings.HasPrefix(ln, "H") {
+			m := dteLine.FindStringSubmatch(ln)
+			if m == nil {
+				return true
+			}
+			want = append(want, m[1])
+		}
+	}
+	res.Count("probe:headers-checked", 1)
+	if len(t.Headers) != len(want) {
+		res.Fail("headers-differ", "headers-differ:count", "Read (%s) returned %d headers for a stream with %d date records: %v", what, len(t.Headers), len(want), t.Headers)
+		return false
+	}
+	for i, h := range t.Headers {
+		if h.Source != "F" || h.Key != "DTE" || h.KeyExtra != "" || h.Value != want[i] {
+			res.Fail("headers-differ", "headers-differ", "Read (%s): header %d is %+v, the stream's record %d is HFDTE%s", what, i, h, i, want[i])
+			return false
+		}
+	}
+	return true
+}
+
+// encodeIntoFailingWriter: Encode into a writer that fails at an offset. What
+// the encoder must do with the error is not stated; but if it reports success
+// the track has been written, so what the writer accepted must read back as
+// the whole track.
+func encodeIntoFailingWriter(res *core.Result, log *core.Log, s *Scenario) bool {
+	ls := buildTrack(s.Layout, s.Fixes, float64(s.Extra))
+	w := simio.NewWriter(simio.WritePlan{FailAt: s.CleanWriteFail, Short: true, Transient: !s.CleanWFSticky})
+	var err error
+	if p := core.Guard(func() { err = igc.NewEncoder(w, igc.A(s.A)).Encode(ls) }); p != "" {
+		res.Fail("panic", "panic:encode:"+core.PanicSite(p), "Encode into a failing writer panicked: %s", p)
+		return false
+	}
+	if w.Fails == 0 {
+		return true
+	}
+	res.Count("write-fail", 1)
+	log.Addf("encoder's writer failed at %d (sticky %v): err=%v, %d bytes accepted", s.CleanWriteFail, s.CleanWFSticky, err, len(w.Buf))
+	if err != nil {
+		return true
+	}
+	res.Count("probe:encode-reported-success-although-the-writer-failed", 1)
+	t, rerr := igc.Read(bytes.NewReader(w.Buf))
+	if rerr != nil || t == nil || t.LineString == nil || t.LineString.NumCoords() != len(s.Fixes) {
+		n := -1
+		if t != nil && t.LineString != nil {
+			n = t.LineString.NumCoords()
+		}
+		res.Fail("encode-error-lost", "encode-error-lost", "the writer failed at offset %d but Encode reported success; the %d bytes it accepted read back as %d of %d fixes (err=%v)", s.CleanWriteFail, len(w.Buf), n, len(s.Fixes), rerr)
+		return false
+	}
+	return verifyTrack(res, s.Fixes, t.LineString, "after a writer failure that Encode did not report", w.Buf)
 }
 
 // kept is a decode result that is looked at again after later decodes.
@@ -728,6 +836,17 @@ func (prop) Execute(scAny any, phase string, log *core.Log) core.Result {
 		var ses *session
 		if s.Reuse {
 			ses = &session{}
+		}
+		if len(s.Prelude) > 0 {
+			res.Count("probe:decode-after-an-unrelated-stream", 1)
+			text := strings.Join(s.Prelude, "\n") + "\n"
+			if p := core.Guard(func() { _, _ = igc.Read(strings.NewReader(text)) }); p != "" {
+				res.Fail("panic", "panic:read:"+core.PanicSite(p), "Read panicked on the prelude stream: %s\n%s", p, head([]byte(text)))
+				return res
+			}
+		}
+		if s.CleanWriteFail > 0 && !encodeIntoFailingWriter(&res, log, s) {
+			return res
 		}
 		var first kept
 		if !checkTrack(&res, log, s, ses, s.Fixes, s.Read, "whole track", &first) {
@@ -919,6 +1038,11 @@ func faulty(s *Scenario, log *core.Log) core.Result {
 		return res
 	}
 	if err != nil {
+		var list igc.Errors
+		if !errors.As(err, &list) || len(list) == 0 {
+			res.Fail("errors-not-a-list", "errors-not-a-list", "Read returned the error %T, not the list of record errors (igc.Errors)", err)
+			return res
+		}
 		res.Count("probe:record-errors-returned", 1)
 		var msg string
 		if p := core.Guard(func() { msg = err.Error() }); p != "" {
